@@ -123,7 +123,9 @@ theorem C14_chain_rect : ∀ (ds : List Deriv) (t r : Tbl), Rect t →
       simp only [h1] at hr
       exact C14_chain_rect ds t1 r (C14_step_rect t h d t1 h1) hr
 
-/-- a derivation is a function of its argument: the source table is the same value afterwards -/
+/-- NO CONTENT beyond the modelling decision: in the functional model a derivation returns a new value and cannot touch
+    its argument, so this holds by `rfl` for any function.  The real hazard (numpy views sharing buffers between a table
+    and its source) cannot be expressed here; it is checked on the implementation by the snapshot oracle only. -/
 theorem C14_source_unchanged (t : Tbl) (ps : List Nat) : (fun src => (selectRows src ps, src)) t = (selectRows t ps, t) := rfl
 
 end Properties.C14
